@@ -741,6 +741,16 @@ def check_value(ctx, rng, spec, value, thorough_gaps):
         if ign:
             continue
         for i, it in enumerate(lvl):
+            if it[2] == 'field' and not (it[0] & 1) and (ctx.evaluations + i) % 3 == 0:
+                # a RECOGNISED non-critical (even-typed) element that stands a second time / out of its place is ignored like an unknown
+                # one (documented: "Out of order or unknown fields are ignored if they are non-critical"): decoding does not fail
+                for lab_, lv2 in (('repeated', lvl[:i + 1] + [it] + lvl[i + 1:]), ('moved-to-the-end', lvl[:i] + lvl[i + 1:] + [it]), ('again-at-the-end', lvl + [it])):
+                    wire_ = enc_items(replace_level(items, path, lv2))
+                    try:
+                        cls.parse(wire_)
+                        ctx.event('recognised-noncritical-element-out-of-place-accepted')
+                    except Exception as e:   # noqa
+                        ctx.report(f'misplaced-noncritical-rejected:{type(e).__name__}', f'a recognised non-critical element ({lab_}) made decoding fail: {e!r}', dict(w, mutated=wire_[:400], element_type=it[0]))
             if it[2] != 'field' or not (it[0] & 1):
                 continue
             dup = enc_items(replace_level(items, path, lvl[:i + 1] + [it] + lvl[i + 1:]))
@@ -780,6 +790,46 @@ def scribble_model(x, depth=0):
         for v in list(d.values()):
             n += scribble_model(v, depth + 1)
     return n
+
+
+def check_one_shot_names(ctx, rng):
+    """A NameField accepts "a list or iterator of Components": a name handed over as a one-shot generator / iterator / map object is
+    encoded like the same name in list form (one encode() per model object - such a value can be walked once)."""
+    from ndn.encoding import TlvModel, NameField, UintField, RepeatedField, BytesField
+
+    class Plain(TlvModel):
+        before = UintField(0x81)
+        name = NameField()
+        after = BytesField(0x83)
+
+    class Many(TlvModel):
+        names = RepeatedField(NameField())
+        tail = UintField(0x85)
+    for rep in range(ctx.n(60, 3000)):
+        comps = gen.simple_name(rng, 0, 5) if hasattr(gen, 'simple_name') else [rc.comp(8, b'a')]
+        shape = rep % 3
+        mk = [lambda cs: (bytes(c) for c in cs), lambda cs: iter([bytes(c) for c in cs]), lambda cs: map(bytes, [bytes(c) for c in cs])][shape]
+        w = {'name': [c.hex() for c in comps], 'given_as': ['generator', 'iterator', 'map'][shape]}
+        try:
+            m = Plain()
+            m.before, m.name, m.after = 7, mk(comps), b'tail'
+            got = bytes(m.encode())
+            exp = rc.enc_tlv(0x81, b'\x07') + rc.enc_name(comps) + rc.enc_tlv(0x83, b'tail')
+            ctx.event('name-field-given-a-one-shot-iterator')
+            ctx.case(('one-shot-name', shape, len(comps)), nontrivial=True)
+            if got != exp:
+                ctx.report('encoding-differs-from-reference:one-shot-name', 'a name given as a one-shot iterator is not encoded like the same name as a list', dict(w, got=got[:200], expected=exp[:200]))
+            elif [bytes(c) for c in Plain.parse(got).name] != comps:
+                ctx.report('roundtrip-differs:one-shot-name', 'decode(encode(m)) != m for a name given as a one-shot iterator', w)
+            others = [gen.simple_name(rng, 1, 3) for _ in range(rng.randint(0, 3))]
+            m2 = Many()
+            m2.names, m2.tail = [mk(cs) if i % 2 == 0 else list(cs) for i, cs in enumerate([comps] + others)], 300
+            got2 = bytes(m2.encode())
+            exp2 = b''.join(rc.enc_name(cs) for cs in [comps] + others) + rc.enc_tlv(0x85, b'\x01\x2c')
+            if got2 != exp2:
+                ctx.report('encoding-differs-from-reference:one-shot-name:repeated', 'names given as one-shot iterators inside a repeated field are not encoded like lists', dict(w, got=got2[:200], expected=exp2[:200]))
+        except Exception as e:   # noqa
+            ctx.report(f'encode-raises:{type(e).__name__}@{raising_site(e)[0]}:one-shot-name', f'{e!r}', w)
 
 
 def has_nonascii(v):
@@ -893,7 +943,10 @@ def run(ctx):
             ctx.klass('shipped-values')
     for k in ('roundtrip', 'gap-plain-noncrit', 'gap-plain-crit', 'gap-map-kv-noncrit', 'dup-critical', 'swap-critical', 'container-field-filled-in-place', 'field-with-default-explicitly-set-to-None'):
         ctx.need_event(k)
-    for k_ in ('decoded-again-after-editing-the-first-result', 'encoded-again-after-an-in-place-edit', 'lenient-decode-before-the-strict-one'):
+    if ctx.shard == 0:
+        check_one_shot_names(ctx, rng)
+        ctx.need_event('name-field-given-a-one-shot-iterator')
+    for k_ in ('recognised-noncritical-element-out-of-place-accepted', 'decoded-again-after-editing-the-first-result', 'encoded-again-after-an-in-place-edit', 'lenient-decode-before-the-strict-one'):
         ctx.need_event(k_)
     ctx.assumptions = ['critical = odd type', 'BoolField False == absent', 'a field with a default is either left unassigned (default encoded) or explicitly set to None (omitted)',
                        'name fields use type 7 only; type numbers are distinct within one model (unambiguous decoding)']
